@@ -1,8 +1,12 @@
 (** C01 — Conflict simplification and flattening preserve meaning.
-    Property theorems only; proofs live in Proofs/C01.v. The model ([Model/Merge.v]) is the
-    alternating term vector of lib/src/merge.rs with [get_simplified_mapping] transcribed
-    literally; [den m v] = (#occurrences of v as an add) - (#occurrences as a remove). *)
-From Verif Require Import Base.Prelude Model.Merge Proofs.C01.
+    Property theorems only; proofs live in Proofs/C01*.v. The model ([Model/Merge.v]) is the
+    alternating term vector of lib/src/merge.rs ([values[0]] an add, [values[1]] a remove, ...)
+    with [get_simplified_mapping] transcribed literally as a loop over an index vector;
+    [den m v] = (#occurrences of v as an add) - (#occurrences as a remove). A [Merge] always
+    has an odd number of terms ([Merge::from_vec] asserts it); theorems about the loop carry
+    that guard. *)
+From Verif Require Import Base.Prelude Model.Merge Model.C01 Proofs.C01 Proofs.C01Simp
+  Proofs.C01Update Proofs.C01Checker.
 Local Open Scope Z_scope.
 
 Section Statements.
@@ -27,23 +31,105 @@ Section Statements.
     den eqb (flatten mm) v = den_nested eqb mm v.
   Proof. exact (flatten_den eqb). Qed.
 
-  (** Meaning of the boolean checker that the harness applies to the implementation's outputs. *)
+  (** A simplified conflict has no value that is both a side (add) and a base (remove). *)
+  Theorem C01_simplified_disjoint : forall (m : list T) (v : T),
+    Nat.odd (length m) = true ->
+    In v (adds (simplify eqb m)) -> ~ In v (removes (simplify eqb m)).
+  Proof. exact (simplified_disjoint eqb eqb_spec). Qed.
+
+  (** Simplifying again is a no-op. *)
+  Theorem C01_simplify_idem : forall (m : list T),
+    Nat.odd (length m) = true -> simplify eqb (simplify eqb m) = simplify eqb m.
+  Proof. exact (simplify_idem eqb eqb_spec). Qed.
+
+  (** The loop of [get_simplified_mapping] ends because the cursor leaves the vector, not
+      because the model's fuel [S (length m)] runs out: any larger fuel gives the same result. *)
+  Theorem C01_simplify_terminates : forall (m : list T) (extra : nat),
+    simp_loop eqb (S (length m) + extra) (enumerate_from 0 m) 0 = simplified_pairs eqb m.
+  Proof. exact (simplify_fuel_enough eqb eqb_spec). Qed.
+
+  (** The index mapping is duplicate-free, in range, parity preserving (adds come from adds,
+      removes from removes), and position [j] of the simplified conflict holds the original
+      term at index [mapping j]. *)
+  Theorem C01_mapping_sound : forall (m : list T),
+    Nat.odd (length m) = true ->
+    NoDup (simplified_mapping eqb m)
+    /\ length (simplified_mapping eqb m) = length (simplify eqb m)
+    /\ forall j i, nth_error (simplified_mapping eqb m) j = Some i ->
+         (i < length m)%nat /\ Nat.even i = Nat.even j
+         /\ nth_error (simplify eqb m) j = nth_error m i.
+  Proof. exact (simplified_mapping_sound eqb eqb_spec). Qed.
+
+  (** [simplify] = [apply_simplified_mapping (get_simplified_mapping ())]. *)
+  Theorem C01_simplify_apply_mapping : forall (m : list T) (d : T),
+    Nat.odd (length m) = true ->
+    simplify eqb m = map (fun i => nth i m d) (simplified_mapping eqb m).
+  Proof. exact (simplify_apply_mapping eqb eqb_spec). Qed.
+
+  (** Writing an edited simplified conflict [s] back: the result has the original arity,
+      equals the original at every index outside the mapping, and holds [s]'s term [j] at
+      index [mapping j] (so an edit lands only on surviving positions). The implementation
+      asserts [length s = length (simplify m)]. Writing the unedited simplified form back
+      gives the original conflict, which therefore simplifies to the same thing. *)
+  Theorem C01_update_lands : forall (m s : list T),
+    Nat.odd (length m) = true -> length s = length (simplify eqb m) ->
+    length (update_from_simplified eqb m s) = length m
+    /\ (forall i, ~ In i (simplified_mapping eqb m) ->
+          nth_error (update_from_simplified eqb m s) i = nth_error m i)
+    /\ (forall j i, nth_error (simplified_mapping eqb m) j = Some i ->
+          nth_error (update_from_simplified eqb m s) i = nth_error s j).
+  Proof. exact (update_lands_guarded eqb eqb_spec). Qed.
+
+  Theorem C01_update_same : forall (m : list T),
+    Nat.odd (length m) = true ->
+    update_from_simplified eqb m (simplify eqb m) = m
+    /\ simplify eqb (update_from_simplified eqb m (simplify eqb m)) = simplify eqb m.
+  Proof. exact (update_same_both eqb eqb_spec). Qed.
+
+  (** Meaning of the generic boolean checkers. *)
   Theorem C01_den_eqb_spec : forall l1 l2 : list T,
     den_eqb eqb l1 l2 = true <-> forall v, den eqb l1 v = den eqb l2 v.
   Proof. exact (den_eqb_spec eqb eqb_spec). Qed.
+
+  Theorem C01_disjointb_spec : forall l : list T,
+    disjointb eqb l = true <-> forall v, In v (adds l) -> ~ In v (removes l).
+  Proof. exact (disjointb_spec eqb eqb_spec). Qed.
 End Statements.
+
+(** Meaning of the whole checker [C01.okb] that every run applies to the implementation's
+    outputs (each field of [C01_ok] is one conjunct; see Proofs/C01Checker.v):
+    den-equality of [simplify], odd arity, disjointness, idempotence, soundness of the
+    observed mapping, den-equality of [flatten], the write-back landing exactly on the mapped
+    positions, and the equivalent multiset-of-changes law. *)
+Theorem C01_okb_spec : forall c : C01.case, C01.okb c = true <-> C01_ok c.
+Proof. exact okb_spec. Qed.
 
 Check @C01_simplify_den : forall T (eqb : T -> T -> bool), (forall x y, eqb x y = true <-> x = y) ->
   forall m v, den eqb (simplify eqb m) v = den eqb m v.
 Check @C01_flatten_den : forall T (eqb : T -> T -> bool) mm v, Nat.odd (length mm) = true -> Forall (fun m => Nat.odd (length m) = true) mm ->
   den eqb (flatten mm) v = den_nested eqb mm v.
+Check @C01_simplified_disjoint : forall T (eqb : T -> T -> bool), (forall x y, eqb x y = true <-> x = y) ->
+  forall m v, Nat.odd (length m) = true -> In v (adds (simplify eqb m)) -> ~ In v (removes (simplify eqb m)).
+Check @C01_simplify_idem : forall T (eqb : T -> T -> bool), (forall x y, eqb x y = true <-> x = y) ->
+  forall m, Nat.odd (length m) = true -> simplify eqb (simplify eqb m) = simplify eqb m.
 
-(** Non-vacuity: a 7-term conflict that really simplifies, and a nested one. *)
+(** Non-vacuity: a 7-term conflict that really simplifies, a pair that cancels only after
+    an earlier cancellation, a nested conflict, a mapping that is not monotone, and an edit
+    that lands on the surviving positions. *)
 Example C01_nonvacuous :
   simplify N.eqb [1; 2; 3; 1; 2; 3; 4]%N = [4]%N
+  /\ simplify N.eqb [1; 2; 3; 1; 2]%N = [3]%N
+  /\ simplified_mapping N.eqb [0; 1; 2; 0; 1]%N = [2]%nat
+  /\ simplified_mapping N.eqb [5; 6; 7; 5; 8]%N = [4; 1; 2]%nat
+  /\ update_from_simplified N.eqb [5; 6; 7; 5; 8]%N [100; 101; 102]%N = [5; 101; 102; 5; 100]%N
   /\ flatten [[1; 2; 3]; [4; 5; 6]; [7]]%N = [1; 2; 3; 6; 5; 4; 7]%N
   /\ Forall (fun m => Nat.odd (length m) = true) [[1; 2; 3]; [4; 5; 6]; [7]]%N.
 Proof. repeat split; repeat constructor. Qed.
 
 Print Assumptions C01_simplify_den.
 Print Assumptions C01_flatten_den.
+Print Assumptions C01_simplified_disjoint.
+Print Assumptions C01_simplify_idem.
+Print Assumptions C01_mapping_sound.
+Print Assumptions C01_update_lands.
+Print Assumptions C01_okb_spec.
